@@ -15,7 +15,7 @@ PROPERTY = "C18"
 RULE = ("documents: hand-made small documents for every syntactic feature (edits exhaustive over ALL entered node positions), "
         "the repo fixtures, seeded generated executable / type-system / mixed documents (edits on sampled positions); "
         "per document: identity, delete / skip / replace / replace-by-other / in-place mutation at a position, multi-edit scripts, "
-        "DispatchingVisitor class hierarchies created per case and used in six orders (base then subclass, reverse, siblings, subclass of subclass); chains of 2..4 recorders where every member in turn raises SkipNode at every node kind (all calls on all other nodes compared); chains of 1..3 (plain and Dispatching) members configured through the constructor or by assigning / extending / re-ordering `visitors` afterwards (also from a subclass), sub-tree roots, wrong-kind replacements. "
+        "documents parsed WITHOUT locations containing structurally equal siblings (selections, arguments, directives, list values, object fields, definitions; edits at every occurrence, checked by identity; child list objects never edited in place); nested chains and ChainedVisitor subclasses with their own enter/leave (recording, skipping) at every position of an outer chain; DispatchingVisitor class hierarchies created per case and used in six orders (base then subclass, reverse, siblings, subclass of subclass); chains of 2..4 recorders where every member in turn raises SkipNode at every node kind (all calls on all other nodes compared); chains of 1..3 (plain and Dispatching) members configured through the constructor or by assigning / extending / re-ordering `visitors` afterwards (also from a subclass), sub-tree roots, wrong-kind replacements. "
         "non-trivial = distinct (document, visitor script) whose visit enters >= 3 nodes")
 ASSUMPTIONS = [
     "the model's `chained vs` is a function of the LIVE `visitors` list at the time of each call (what the documented attribute says); chains are therefore also configured by assigning / extending / re-ordering `visitors` after construction and from subclasses",
@@ -355,10 +355,12 @@ def documents(ctx):
     docs += [(t, {}, "small", True) for t in D.SMALL_EXECUTABLE]
     docs += [(t, {"experimental_fragment_variables": True}, "small", True) for t in D.SMALL_EXECUTABLE_FRAGVARS]
     docs += [(t, {"allow_type_system": True}, "small", True) for t in D.SMALL_TYPE_SYSTEM]
+    docs += [(t, {"no_location": True}, "small-noloc", True) for t in D.NOLOC_EXECUTABLE]
+    docs += [(t, {"no_location": True, "allow_type_system": True}, "small-noloc", True) for t in D.NOLOC_TYPE_SYSTEM]
     docs.append(((FIXTURES / "kitchen-sink.graphql").read_text(), {}, "fixture", False))
     docs.append(((FIXTURES / "schema-kitchen-sink.graphql").read_text(), {"allow_type_system": True}, "fixture", False))
     docs.append(((FIXTURES / "introspection-schema.graphql").read_text(), {"allow_type_system": True}, "fixture", False))
-    for _ in range(ctx.n(60, 380)):
+    for _ in range(ctx.n(44, 380)):
         r = ctx.rng.random()
         if r < 0.4:
             docs.append((D.gen_executable(ctx.rng, True), {"experimental_fragment_variables": True}, "gen-exec", False))
@@ -366,6 +368,9 @@ def documents(ctx):
             docs.append((D.gen_executable(ctx.rng, False, n=1), {}, "gen-exec", False))
         else:
             docs.append((D.gen_type_system(ctx.rng, mixed=True), {"allow_type_system": True}, "gen-sdl", False))
+        if ctx.rng.random() < 0.3:     # same generator, parsed without locations (duplicates become `==`)
+            t, kw, o, e = docs[-1]
+            docs[-1] = (t, dict(kw, no_location=True), o + "-noloc", e)
     return docs
 
 
@@ -506,8 +511,9 @@ def direct_oracle(ctx, text, kw, fail, exhaustive, big=False):
         return
     pos = None if exhaustive else sorted(ctx.rng.sample(range(n), min(n, ctx.n(4, 8))))
     O.check_edits(ctx, text, kw, fail, positions=pos)
-    cp = list(range(n)) if (exhaustive and n <= 12) else sorted(ctx.rng.sample(range(n), min(n, 3)))
-    for k in ((1, 2, 3) if exhaustive else (ctx.rng.choice([1, 2, 3]),)):
+    # member delete / replace / skip at sampled positions (every node kind x every member is in check_chain_skips)
+    cp = sorted(ctx.rng.sample(range(n), min(n, 4 if exhaustive else 3)))
+    for k in ((1, 3) if exhaustive else (ctx.rng.choice([1, 2, 3]),)):
         O.check_chain(ctx, text, kw, fail, k, cp, dispatching=ctx.rng.random() < 0.5)
     for config in (O.CHAIN_CONFIGS[1:] if exhaustive else (ctx.rng.choice(O.CHAIN_CONFIGS[1:]),)):
         O.check_chain_configured(ctx, text, kw, fail, ctx.rng.choice([2, 3]), config, dispatching=ctx.rng.random() < 0.3)
@@ -520,6 +526,9 @@ def direct_oracle(ctx, text, kw, fail, exhaustive, big=False):
     for k in ((2, 3, 4) if exhaustive else (ctx.rng.choice([2, 3, 4]),)):
         # every node kind with 3 members (every member raising in turn); 2 kinds with 2 and with 4 members
         O.check_chain_skips(ctx, text, kw, fail, k, sp if (k == 3 or not exhaustive) else ctx.rng.sample(sp, min(len(sp), 2)))
+    for variant in (("plain", "tracing", "skipping") if exhaustive else (ctx.rng.choice(["plain", "tracing", "skipping"]),)):
+        for position in ((0, 1, 2) if exhaustive else (ctx.rng.randrange(3),)):
+            O.check_chain_nested(ctx, text, kw, fail, position, variant, ctx.rng.randrange(len(entered)))
     O.check_dispatching(ctx, text, kw, fail)
     _register_later(ctx, text, kw, len(entered))
     if exhaustive or ctx.rng.random() < 0.3:
@@ -625,6 +634,8 @@ def replay(ctx, data):
             O.check_dispatching(ctx, text, kw, fail)
         if "edit" in inp and "chain" not in inp:
             O.check_edits(ctx, text, kw, fail, positions=[inp["pos"]])
+        elif "nested" in inp:
+            O.check_chain_nested(ctx, text, kw, fail, inp["position"], inp["nested"], inp["pos"])
         elif "skips" in inp:
             O.check_chain_skips(ctx, text, kw, fail, inp["chain"], [inp["pos"]])
         elif "history" in inp:
